@@ -77,7 +77,7 @@ CHECKS = {
    text='Machine-checked proof (Coq) that the JSON reader model decodes the legal spellings beyond the writer\'s own: both Remove spellings, raw JSON numbers/booleans/null, strings without s: (second character not a colon), '
         'times without seconds, n:INF/-INF/NaN, numbers with and without unit; further clauses as evaluated examples. Tied by the reader model vs hszinc.parse on documents of an independent grammar-directed writer '
         '(value x independently chosen spelling, 4 input forms) and on 56 odd/malformed spellings.',
-   note='PARTIAL: exponent forms, fractions of other lengths, Z date-times and grid-level clauses (rows missing/null/omitting columns) are not proved, only exercised. '
+   note='Missing and null `rows` are proved to denote no rows (C05_rows_missing, C05_rows_null). PARTIAL: exponent forms, fractions of other lengths and Z date-times are not proved, only exercised. '
         '"The caller\'s object is never modified" is vacuous in a functional model: checked on the implementation by deep snapshot only. '
         'Lower-case z in JSON date-times and nested grids without a rows key are outside the property\'s list and are not generated. Print Assumptions: closed under the global context.',
    technique='Coq proofs about regex-matcher models + correspondence on independently written documents',
